@@ -202,7 +202,8 @@ theorem code_QuoIntRoundUp_away_from_zero (a b : Int) (hb : b ≠ 0) (ha : fits2
   rw [gen_QuoIntRoundUp a b hb ha, quoIntRoundUp_away_from_zero a b hb]
 
 /-- [on the code] the ratio fee is the ceiling of `price·fee/ratioPrice` in the ratio's fee
-denomination, whenever the product fits 256 bits (the exact failing set is `applyLoosely_fails_iff`). -/
+denomination, whenever the FEE itself fits 256 bits (the product may be of any size; the exact
+failing set is `applyLoosely_fails_iff`). -/
 theorem code_ApplyToLoosely_is_ceil (r : GoFeeRatio) (price : GoCoin)
     (hd : r.price.denom = price.denom) (hp : 0 ≤ price.amount) (hrf : 0 ≤ r.fee.amount)
     (hrp : 0 < r.price.amount)
